@@ -372,6 +372,9 @@ read_file(econf_file *ef, const char *file,
     while (*name && isspace((unsigned)*name))
       name++;
 
+    if (!*name)
+      continue; /* line consists of spaces only */
+
     /* go through all comment characters and check if one of them could be found */
     for (size_t i = 0; i < strlen(comment); i++) {
       p = strrchr(name, comment[i]);
